@@ -1,6 +1,7 @@
 """C07 - SPI equals the gamma-MLE / zero-mixture / normal-quantile definition."""
 from __future__ import annotations
 
+import sys
 import math
 
 import numpy as np
@@ -318,3 +319,9 @@ def run(ctx):
         rec.case("oracle", case, nontrivial=why is None, cls=["kind:" + case["kind"]])
 
     ctx.given("oracle", pixel(60), ctx.n(120, 1500), fn=f_or, shrink=False)
+
+
+from harness import history as _history  # noqa: E402
+
+_history.install(sys.modules[__name__], {"spi": _history.q_spi}, {"spi": _history.spi_args}, n=(100, 1200), dtypes=("int16", "float32"), nt=(12, 24),
+                 attrs0={"nodata": -9999}, cells=st.one_of(st.integers(1, 3000), st.integers(1, 40), st.sampled_from([-9999, 0])))
